@@ -265,7 +265,7 @@ func TestVerifC10Concurrent(t *testing.T) {
 	// first use of a session the cache does not know (a browser that still holds the cookie of a restarted agent, or an
 	// evicted session) by several requests at once: every cookie the backend sets in those responses must be in the
 	// session afterwards
-	lostFirstUse, roundsFirst := 0, 400
+	lostFirstUse, roundsFirst := 0, 1500
 	var lostExample []string
 	for r := 0; r < roundsFirst; r++ {
 		sid := fmt.Sprintf("unknown-session-%d", r)
